@@ -352,6 +352,134 @@ BigCase(q) ==
   IN Out(Env("RESULT_ROWS", q.v, 0, 1, 0, [meta |-> MkMeta(types, TRUE, FALSE, q.n), rows |-> rows]),
          TRUE, <<BigPlan(bv), [kind |-> "int", elems |-> <<>>]>>, PrepFor(q.v, types, TRUE))
 
+\* ------------------------------------------------------------------ SCALAR: every scalar type with the boundary values of its encoding
+\* (protocol section "data types": fixed-width two's complement integers, IEEE bit patterns, timestamp
+\* = signed ms since the epoch, date = UNSIGNED days with 2^31 = 1970-01-01 (so pre-epoch days are
+\* below 2^31), time = ns since midnight, uuid 16 bytes, inet 4|16 bytes, varint minimal two's
+\* complement, decimal = [int] scale + varint, duration = three zig-zag vints).  r is the value in
+\* the notation the harness prints Go values in: integers in decimal, floats as their bit pattern,
+\* time.Time as ms since the epoch (tm:), uuid bytes (u:), text (t:), big numbers as printed (s:).
+ScalarTab == <<
+  [kind |-> "bigint", tid |-> 2, vmin |-> 1, vals |-> <<
+      [b |-> <<0, 0, 0, 0, 0, 0, 0, 0>>, r |-> "0"],
+      [b |-> <<0, 0, 0, 0, 0, 0, 0, 1>>, r |-> "1"],
+      [b |-> <<255, 255, 255, 255, 255, 255, 255, 255>>, r |-> "-1"],
+      [b |-> <<127, 255, 255, 255, 255, 255, 255, 255>>, r |-> "9223372036854775807"],
+      [b |-> <<128, 0, 0, 0, 0, 0, 0, 0>>, r |-> "-9223372036854775808"],
+      [b |-> <<0, 0, 0, 0, 128, 0, 0, 0>>, r |-> "2147483648"],
+      [b |-> <<255, 255, 255, 255, 127, 255, 255, 255>>, r |-> "-2147483649"],
+      [b |-> <<0, 0, 0, 0, 0, 0, 0, 255>>, r |-> "255"] >>],
+  [kind |-> "bigint", tid |-> 5, vmin |-> 1, vals |-> <<
+      [b |-> <<0, 0, 0, 0, 0, 0, 0, 0>>, r |-> "0"],
+      [b |-> <<0, 0, 0, 0, 0, 0, 0, 1>>, r |-> "1"],
+      [b |-> <<255, 255, 255, 255, 255, 255, 255, 255>>, r |-> "-1"],
+      [b |-> <<127, 255, 255, 255, 255, 255, 255, 255>>, r |-> "9223372036854775807"],
+      [b |-> <<128, 0, 0, 0, 0, 0, 0, 0>>, r |-> "-9223372036854775808"] >>],
+  [kind |-> "smallint", tid |-> 19, vmin |-> 4, vals |-> <<
+      [b |-> <<0, 0>>, r |-> "0"],
+      [b |-> <<0, 1>>, r |-> "1"],
+      [b |-> <<255, 255>>, r |-> "-1"],
+      [b |-> <<127, 255>>, r |-> "32767"],
+      [b |-> <<128, 0>>, r |-> "-32768"],
+      [b |-> <<0, 255>>, r |-> "255"] >>],
+  [kind |-> "tinyint", tid |-> 20, vmin |-> 4, vals |-> <<
+      [b |-> <<0>>, r |-> "0"],
+      [b |-> <<1>>, r |-> "1"],
+      [b |-> <<255>>, r |-> "-1"],
+      [b |-> <<127>>, r |-> "127"],
+      [b |-> <<128>>, r |-> "-128"] >>],
+  [kind |-> "float", tid |-> 8, vmin |-> 1, vals |-> <<
+      [b |-> <<0, 0, 0, 0>>, r |-> "f32:0"],
+      [b |-> <<128, 0, 0, 0>>, r |-> "f32:2147483648"],
+      [b |-> <<63, 128, 0, 0>>, r |-> "f32:1065353216"],
+      [b |-> <<127, 128, 0, 0>>, r |-> "f32:2139095040"],
+      [b |-> <<255, 128, 0, 0>>, r |-> "f32:4286578688"],
+      [b |-> <<127, 192, 0, 0>>, r |-> "f32:2143289344"],
+      [b |-> <<0, 0, 0, 1>>, r |-> "f32:1"],
+      [b |-> <<127, 127, 255, 255>>, r |-> "f32:2139095039"],
+      [b |-> <<192, 73, 15, 219>>, r |-> "f32:3226013659"] >>],
+  [kind |-> "double", tid |-> 7, vmin |-> 1, vals |-> <<
+      [b |-> <<0, 0, 0, 0, 0, 0, 0, 0>>, r |-> "f64:0"],
+      [b |-> <<128, 0, 0, 0, 0, 0, 0, 0>>, r |-> "f64:9223372036854775808"],
+      [b |-> <<63, 240, 0, 0, 0, 0, 0, 0>>, r |-> "f64:4607182418800017408"],
+      [b |-> <<127, 240, 0, 0, 0, 0, 0, 0>>, r |-> "f64:9218868437227405312"],
+      [b |-> <<255, 240, 0, 0, 0, 0, 0, 0>>, r |-> "f64:18442240474082181120"],
+      [b |-> <<127, 248, 0, 0, 0, 0, 0, 1>>, r |-> "f64:9221120237041090561"],
+      [b |-> <<0, 0, 0, 0, 0, 0, 0, 1>>, r |-> "f64:1"],
+      [b |-> <<127, 239, 255, 255, 255, 255, 255, 255>>, r |-> "f64:9218868437227405311"],
+      [b |-> <<192, 9, 33, 251, 84, 68, 45, 24>>, r |-> "f64:13837628693406821656"] >>],
+  [kind |-> "timestamp", tid |-> 11, vmin |-> 1, vals |-> <<
+      [b |-> <<0, 0, 0, 0, 0, 0, 0, 0>>, r |-> "tm:0"],
+      [b |-> <<255, 255, 255, 255, 255, 255, 255, 255>>, r |-> "tm:-1"],
+      [b |-> <<0, 0, 0, 0, 0, 0, 0, 1>>, r |-> "tm:1"],
+      [b |-> <<255, 255, 255, 255, 250, 217, 164, 0>>, r |-> "tm:-86400000"],
+      [b |-> <<0, 0, 1, 139, 207, 229, 104, 123>>, r |-> "tm:1700000000123"],
+      [b |-> <<255, 255, 253, 253, 174, 1, 220, 0>>, r |-> "tm:-2208988800000"],
+      [b |-> <<0, 32, 0, 0, 0, 0, 0, 0>>, r |-> "tm:9007199254740992"],
+      [b |-> <<255, 224, 0, 0, 0, 0, 0, 0>>, r |-> "tm:-9007199254740992"] >>],
+  [kind |-> "date", tid |-> 17, vmin |-> 4, vals |-> <<
+      [b |-> <<128, 0, 0, 0>>, r |-> "tm:0"],
+      [b |-> <<127, 255, 255, 255>>, r |-> "tm:-86400000"],
+      [b |-> <<128, 0, 0, 1>>, r |-> "tm:86400000"],
+      [b |-> <<0, 0, 0, 0>>, r |-> "tm:-185542587187200000"],
+      [b |-> <<255, 255, 255, 255>>, r |-> "tm:185542587100800000"],
+      [b |-> <<127, 255, 156, 33>>, r |-> "tm:-2208988800000"],
+      [b |-> <<127, 253, 215, 141>>, r |-> "tm:-12219292800000"],
+      [b |-> <<128, 0, 74, 56>>, r |-> "tm:1641600000000"],
+      [b |-> <<0, 0, 0, 1>>, r |-> "tm:-185542587100800000"],
+      [b |-> <<127, 255, 254, 147>>, r |-> "tm:-31536000000"] >>],
+  [kind |-> "time", tid |-> 18, vmin |-> 4, vals |-> <<
+      [b |-> <<0, 0, 0, 0, 0, 0, 0, 0>>, r |-> "0"],
+      [b |-> <<0, 0, 0, 0, 0, 0, 0, 1>>, r |-> "1"],
+      [b |-> <<0, 0, 78, 148, 145, 78, 255, 255>>, r |-> "86399999999999"],
+      [b |-> <<0, 0, 3, 70, 48, 184, 160, 0>>, r |-> "3600000000000"] >>],
+  [kind |-> "uuid", tid |-> 12, vmin |-> 1, vals |-> <<
+      [b |-> <<0, 0, 0, 0, 0, 0, 0, 0, 0, 0, 0, 0, 0, 0, 0, 0>>, r |-> "u:0,0,0,0,0,0,0,0,0,0,0,0,0,0,0,0"],
+      [b |-> <<255, 255, 255, 255, 255, 255, 255, 255, 255, 255, 255, 255, 255, 255, 255, 255>>, r |-> "u:255,255,255,255,255,255,255,255,255,255,255,255,255,255,255,255"],
+      [b |-> <<18, 52, 86, 120, 154, 188, 77, 239, 128, 1, 2, 3, 4, 5, 6, 7>>, r |-> "u:18,52,86,120,154,188,77,239,128,1,2,3,4,5,6,7"] >>],
+  [kind |-> "uuid", tid |-> 15, vmin |-> 1, vals |-> <<
+      [b |-> <<0, 0, 0, 0, 0, 0, 16, 0, 128, 0, 0, 0, 0, 0, 0, 0>>, r |-> "u:0,0,0,0,0,0,16,0,128,0,0,0,0,0,0,0"],
+      [b |-> <<255, 255, 255, 255, 255, 255, 31, 255, 191, 255, 1, 2, 3, 4, 5, 6>>, r |-> "u:255,255,255,255,255,255,31,255,191,255,1,2,3,4,5,6"] >>],
+  [kind |-> "inet", tid |-> 16, vmin |-> 1, vals |-> <<
+      [b |-> <<10, 0, 0, 1>>, r |-> "t:49,48,46,48,46,48,46,49"],
+      [b |-> <<255, 255, 255, 255>>, r |-> "t:50,53,53,46,50,53,53,46,50,53,53,46,50,53,53"],
+      [b |-> <<32, 1, 13, 184, 0, 0, 0, 0, 0, 0, 0, 0, 0, 0, 0, 1>>, r |-> "t:50,48,48,49,58,100,98,56,58,58,49"],
+      [b |-> <<0, 0, 0, 0, 0, 0, 0, 0, 0, 0, 0, 0, 0, 0, 0, 1>>, r |-> "t:58,58,49"] >>],
+  [kind |-> "varint", tid |-> 14, vmin |-> 1, vals |-> <<
+      [b |-> <<0>>, r |-> "s:0"],
+      [b |-> <<1>>, r |-> "s:1"],
+      [b |-> <<255>>, r |-> "s:-1"],
+      [b |-> <<127>>, r |-> "s:127"],
+      [b |-> <<0, 128>>, r |-> "s:128"],
+      [b |-> <<128>>, r |-> "s:-128"],
+      [b |-> <<255, 127>>, r |-> "s:-129"],
+      [b |-> <<0, 128, 0, 0, 0, 0, 0, 0, 0>>, r |-> "s:9223372036854775808"],
+      [b |-> <<255, 127, 255, 255, 255, 255, 255, 255, 255>>, r |-> "s:-9223372036854775809"],
+      [b |-> <<1, 0, 0, 0, 0, 0, 0, 0, 0>>, r |-> "s:18446744073709551616"],
+      [b |-> <<12, 159, 44, 156, 208, 70, 116, 237, 234, 64, 0, 0, 0>>, r |-> "s:1000000000000000000000000000000"] >>],
+  [kind |-> "decimal", tid |-> 6, vmin |-> 1, vals |-> <<
+      [b |-> <<0, 0, 0, 0, 0>>, r |-> "s:0"],
+      [b |-> <<0, 0, 0, 2, 123>>, r |-> "s:1.23"],
+      [b |-> <<0, 0, 0, 0, 255>>, r |-> "s:-1"],
+      [b |-> <<0, 0, 0, 3, 0, 128, 0, 0, 0, 0, 0, 0, 0>>, r |-> "s:9223372036854775.808"],
+      [b |-> <<0, 0, 0, 1, 255, 127>>, r |-> "s:-12.9"],
+      [b |-> <<0, 0, 0, 5, 5>>, r |-> "s:0.00005"] >>],
+  [kind |-> "duration", tid |-> 21, vmin |-> 5, vals |-> <<
+      [b |-> <<0, 0, 0>>, r |-> "dur:0/0/0"],
+      [b |-> <<2, 4, 6>>, r |-> "dur:1/2/3"],
+      [b |-> <<1, 1, 1>>, r |-> "dur:-1/-1/-1"],
+      [b |-> <<128, 128, 0, 2>>, r |-> "dur:64/0/1"] >>] >>
+
+ScalarParams == {q \in [fam : {"SCALAR"}, v : 1 .. 5, e : 1 .. Len(ScalarTab), n : BOOLEAN] :
+                   /\ q.v >= ScalarTab[q.e].vmin /\ (q.v >= 2 \/ ~q.n)
+                   /\ Thorough \/ q.n = ((q.v + q.e) % 2 = 0)}
+ScalarCase(q) ==
+  LET e == ScalarTab[q.e]
+      types == <<Ty(e.tid), TInt>>
+      rows == [r \in 1 .. Len(e.vals) |-> <<Cell(FALSE, e.vals[r].b, e.vals[r].r, e.vals[r].r, <<>>), CInt(r)>>]
+  IN Out(Env("RESULT_ROWS", q.v, 0, 1, 0, [meta |-> MkMeta(types, TRUE, FALSE, q.n), rows |-> rows]),
+         TRUE, <<[kind |-> e.kind, elems |-> <<>>], [kind |-> "int", elems |-> <<>>]>>, PrepFor(q.v, types, TRUE))
+
 \* ------------------------------------------------------------------ PREPARED
 ReqTypes(v) == << <<>>, <<TInt>>, <<TInt, TText>>, <<TyList(TText), TMy>> >> \o
                (IF v >= 3 THEN << <<TTup>>, <<Udt(<<S_f1, S_f2>>, <<TInt, TTup>>), TInt>> >> ELSE <<>>)
@@ -376,11 +504,11 @@ PrepCase(q) ==
 \* ------------------------------------------------------------------ BFS generator
 Families == <<"SIMPLE", "ERROR", "SCHEMA", "EVENT", "TYPES", "ROWS", "PREP">>
 Init == \/ p \in SimpleParams \/ p \in ErrParams \/ p \in SchemaParams \/ p \in EventParams
-        \/ p \in TypeParams \/ p \in RowsParams \/ p \in PrepParams \/ p \in MultiParams \/ p \in UdtParams \/ p \in BigParams
+        \/ p \in TypeParams \/ p \in RowsParams \/ p \in PrepParams \/ p \in MultiParams \/ p \in UdtParams \/ p \in BigParams \/ p \in ScalarParams
 Next == UNCHANGED p
 Case(q) == CASE q.fam = "SIMPLE" -> SimpleCase(q) [] q.fam = "ERROR" -> ErrCase(q) [] q.fam = "SCHEMA" -> SchemaCase(q)
              [] q.fam = "EVENT" -> EventCase(q) [] q.fam = "TYPES" -> TypeCase(q) [] q.fam = "ROWS" -> RowsCase(q)
-             [] q.fam = "PREP" -> PrepCase(q) [] q.fam = "MULTI" -> MultiCase(q) [] q.fam = "UDT" -> UdtCase(q) [] q.fam = "BIG" -> BigCase(q)
+             [] q.fam = "PREP" -> PrepCase(q) [] q.fam = "MULTI" -> MultiCase(q) [] q.fam = "UDT" -> UdtCase(q) [] q.fam = "BIG" -> BigCase(q) [] q.fam = "SCALAR" -> ScalarCase(q)
 Emit == PrintT("CASE " \o ToJson([fam |-> p.fam] @@ Case(p)))
 
 \* ------------------------------------------------------------------ -simulate: random deeper trees
